@@ -13,6 +13,7 @@ import time
 
 import bindlib
 import corpus
+import derivelib
 import tsparse
 import vlib
 from vlib import ToolError, log
@@ -21,11 +22,16 @@ PROP = "C01"
 
 
 def build_units(tier):
-    progs, st = bindlib.enumerate_programs(tier)
+    dcfg = os.path.join(vlib.BUILD, "derive-cfg.json")
+    derivelib.build_config(dcfg)
+    progs, st = bindlib.enumerate_programs(tier, derive_cfg=dcfg)
+    # TLC's enumeration order is not fixed: name the programs by their content so that the corpus (and its cache) is stable
+    progs.sort(key=lambda x: (x[0], json.dumps(x[1], sort_keys=True)))
     units = bindlib.helper_units()
-    for n, (sl, p) in enumerate(progs):
+    for n, (sl, p, pred) in enumerate(progs):
         u = corpus.render_program(p, "P%d" % n)
         u.meta["slice"] = sl
+        u.meta["pred"] = pred
         units.append(u)
     return units, st
 
@@ -55,6 +61,10 @@ def run(tier):
         info = o["info"]
         if "ok" not in info["decl"] or "ok" not in info["name"]:
             counts["decl_panics"] += 1
+            d = bindlib.prog_descriptor(PROP, u.meta["slice"], u.meta["prog"])
+            d["tag"] = "no_declaration_decl_panics"
+            d["message"] = (info["decl"].get("panic") or info["name"].get("panic") or "")[:50]
+            v.fail(d, {"item": u.src, "decl": info["decl"], "name": info["name"]})
             continue
         try:
             decl = bindlib.decl_record(info["decl"]["ok"])
@@ -70,7 +80,16 @@ def run(tier):
                             "accepted": True, "reser": {"k": "null"}})
             meta.append((u, k, s["ok"], info["decl"]["ok"]))
     counts["values_adjudicated"] = len(records)
+    conf = model_conformance(units, obs, c)
     bad, tool, a = bindlib.adjudicate(records, env, "c01")
+    real_bad_units = {meta[i - 1][0].name for i in bad}
+    pess = [u for u in units if u.meta.get("pred") and not u.meta["pred"]["model_ok"] and u.name in conf["compared"] and u.name not in real_bad_units]
+    if pess:
+        v.note("model pessimism: for %d programs Derive.tla predicts a C01 violation that the real code does not show (e.g. %s)" % (len(pess), pess[0].src[:160]))
+    conf["model_says_violation"] = sum(1 for u in units if u.meta.get("pred") and not u.meta["pred"]["model_ok"])
+    conf["model_violation_confirmed_by_real_code"] = sum(1 for u in units if u.meta.get("pred") and not u.meta["pred"]["model_ok"] and u.name in real_bad_units)
+    conf["real_violation_not_predicted"] = sum(1 for n in real_bad_units if any(u.name == n and u.meta.get("pred") and u.meta["pred"]["model_ok"] for u in units))
+    del conf["compared"]
     for i in sorted(bad):
         u, k, js, decl = meta[i - 1]
         d = bindlib.prog_descriptor(PROP, u.meta["slice"], u.meta["prog"])
@@ -84,6 +103,9 @@ def run(tier):
            "exhaustive": True, "corpus_build_s": round(c.build_s, 1), "corpus_cached": getattr(c, "cached", False),
            "rule": "every well-formed program of each slice of Programs.tla (see bindlib.program_slices) x up to 3 generated values per struct / per variant; one record per (program, value); membership judged by TLC"}
     cov.update(counts)
+    cov["model_conformance"] = conf
+    if conf["ts_drift"] or conf["json_drift"]:
+        v.note("drift: Derive.tla predicts another type for %d programs and another JSON for %d values (samples in the evidence); the verdicts above are computed on the real output" % (conf["ts_drift"], conf["json_drift"]))
     vlib.write_evidence(PROP, tier, "model_checking", cov,
                         ["leaf values are small and finite (no NaN/inf, integers within 32 bits)",
                          "programs the compile-time domain check lets through but rustc/serde_derive/ts-rs reject are excluded and counted",
@@ -135,6 +157,49 @@ def hints(prog, js, decl_text):
     nk = null_keys(j, set())
     return {"optional_member_is_null": bool(optional_keys(body, set()) & nk),
             "null_valued_keys": sorted(nk)}
+
+
+def model_conformance(units, obs, c):
+    """how far the real derive / serde agree with Derive.tla (prediction = real)"""
+    out = {"programs_compared": 0, "ts_equal": 0, "ts_drift": 0, "values_compared": 0, "json_equal": 0, "json_drift": 0,
+           "drift_samples": [], "compared": set()}
+    for u in units:
+        pred = u.meta.get("pred")
+        if not pred or u.name in c.rejected or u.name not in obs:
+            continue
+        info = obs[u.name]["info"]
+        if "ok" not in info["decl"]:
+            continue
+        try:
+            d = tsparse.parse_decl(info["decl"]["ok"])
+        except tsparse.TsSyntaxError:
+            continue
+        out["programs_compared"] += 1
+        out["compared"].add(u.name)
+        real = derivelib.norm(derivelib.rename_self(tsparse.strip(d["body"]), u.name))
+        model = derivelib.norm(pred["ts"])
+        if real == model:
+            out["ts_equal"] += 1
+        else:
+            out["ts_drift"] += 1
+            if len(out["drift_samples"]) < 8:
+                out["drift_samples"].append({"item": u.src[60:260], "real_decl": info["decl"]["ok"], "model": json.dumps(model)[:400]})
+        # values: the renderer lists Lead first, then every non-skipped variant, k = 1..; structs k = 1..
+        order = sorted(pred["values"], key=lambda x: (x["variant"], x["k"]))
+        for pv, s_ in zip(order, obs[u.name]["samples"]):
+            out["values_compared"] += 1
+            if "ok" in s_:
+                rj = derivelib.rename_self(tsparse.json_value(json.loads(s_["ok"])), u.name)
+                same = rj == pv["json"]
+            else:
+                same = pv["json"].get("k") == "error"
+            if same:
+                out["json_equal"] += 1
+            else:
+                out["json_drift"] += 1
+                if len(out["drift_samples"]) < 8:
+                    out["drift_samples"].append({"item": u.src[60:260], "real_json": s_, "model_json": json.dumps(pv["json"])[:300]})
+    return out
 
 
 def classify_json(js):
